@@ -110,6 +110,14 @@ Definition expected_shared_state : list string := [
   "front-end/src/main.rs:?";
   "front-end/src/main.rs:main" ]%string.
 
+(* the five hook sites of Model/ParserKernel.v are the only code that mutates the parser's line state *)
+Definition expected_kernel_mutations : list string := [
+  "core/src/defaults/parser.rs:do_with_context";
+  "core/src/defaults/parser.rs:finish_logical_line";
+  "core/src/defaults/parser.rs:next_token";
+  "core/src/defaults/parser.rs:skip_token";
+  "core/src/defaults/parser.rs:take_separators_on_last_line" ]%string.
+
 Definition expected_env_reads : list string := [ "orchestrator/src/command_line.rs:get_config_object" ]%string.
 
 Fixpoint strings_eqb (a b : list string) : bool :=
